@@ -11,9 +11,8 @@ W=$V/.work/$$
 mkdir -p "$W" || exit 2
 trap 'rm -rf "$W"' EXIT INT TERM
 
-# overlay: every hooks/<pkg>_zz_verif.go becomes /repo/<pkg>/zz_verif.go
-{
-  printf '{"Replace":{'
+# hooks overlay: every hooks/<pkg>_zz_verif.go becomes /repo/<pkg>/zz_verif.go
+hooks_entries() {
   sep=""
   for f in $V/hooks/*_zz_verif.go; do
     pkg=$(basename "$f" _zz_verif.go)
@@ -21,27 +20,39 @@ trap 'rm -rf "$W"' EXIT INT TERM
     printf '%s"%s":"%s"' "$sep" "$dst" "$f"
     sep=","
   done
-  if [ "$ID" = C16 ]; then
-    # engine S: mechanically rewritten copies of the current /repo sources
-    mkdir -p "$W/inst"
-    if ! $V/bin/instrument -repo /repo -out "$W/inst" > "$W/inst.map" 2> "$W/inst.err"; then
-      cat "$W/inst.err" >&2
-      echo "CHECK-BROKEN: instrumenter failed on the current /repo sources" >&2
-      exit 2
-    fi
-    while read -r src dst; do
-      printf '%s"%s":"%s"' "$sep" "$src" "$dst"
-    done < "$W/inst.map"
-  fi
-  printf '}}\n'
-} > "$W/overlay.json" || exit 2
-
+}
+{ printf '{"Replace":{'; hooks_entries; printf '}}\n'; } > "$W/overlay.json" || exit 2
+OVERLAY="$W/overlay.json"
 TAGS=verif
-[ "$ID" = C16 ] && TAGS="verif verifsched"
+
 cd $V/harness || exit 2
-if ! go build -tags "$TAGS" -overlay "$W/overlay.json" -o "$W/explorer" ./cmd/explorer 2> "$W/build.err"; then
+if [ "$ID" = C16 ]; then
+  # engine S: mechanically rewritten copies of the current /repo sources
+  [ -x $V/bin/instrument ] || go build -o $V/bin/instrument ./cmd/instrument || { echo "CHECK-BROKEN: cannot build the instrumenter" >&2; exit 2; }
+  mkdir -p "$W/inst"
+  if ! $V/bin/instrument -repo /repo -out "$W/inst" > "$W/inst.map" 2> "$W/inst.err"; then
+    cat "$W/inst.err" >&2
+    echo "CHECK-BROKEN: instrumenter failed on the current /repo sources" >&2
+    exit 2
+  fi
+  {
+    printf '{"Replace":{'; hooks_entries
+    while read -r src dst; do printf ',"%s":"%s"' "$src" "$dst"; done < "$W/inst.map"
+    printf '}}\n'
+  } > "$W/overlay_s.json"
+  # free-running pass: un-instrumented sources under the race detector
+  if ! go build -race -tags verif -overlay "$W/overlay.json" -o "$W/racepass" ./cmd/racepass 2> "$W/build.err"; then
+    cat "$W/build.err" >&2
+    echo "CHECK-BROKEN: build of the race pass against /repo failed" >&2
+    exit 2
+  fi
+  export VERIF_RACEBIN="$W/racepass"
+  OVERLAY="$W/overlay_s.json"
+  TAGS="verif verifsched"
+fi
+if ! go build -tags "$TAGS" -overlay "$OVERLAY" -o "$W/explorer" ./cmd/explorer 2> "$W/build.err"; then
   cat "$W/build.err" >&2
   echo "CHECK-BROKEN: build of the explorer against /repo failed" >&2
   exit 2
 fi
-VERIF_WORK="$W" VERIF_OVERLAY="$W/overlay.json" "$W/explorer" "$@"
+VERIF_WORK="$W" "$W/explorer" "$@"
